@@ -408,4 +408,33 @@ pub mod facade {
   pub fn dealer_auto_decode(f: &mut FrameBatch) {
     crate::socket::patterns::framing::dealer_auto_decode(f)
   }
+
+  // ------------------------------------------------------------------
+  // AnonymousIngressEngine (PULL / SUB receive side: frame-by-frame vs whole-message reads)
+  // ------------------------------------------------------------------
+  pub struct AnonIngressX(crate::socket::patterns::AnonymousIngressEngine);
+  pub struct IngressSenderX(crate::socket::patterns::PipeMessageSender);
+  impl AnonIngressX {
+    pub fn new(activation_capacity: usize) -> Self {
+      Self(crate::socket::patterns::AnonymousIngressEngine::new(activation_capacity))
+    }
+    pub fn register_pipe(&self, pipe_id: usize, capacity: usize) -> IngressSenderX {
+      IngressSenderX(self.0.register_pipe(pipe_id, capacity, 1))
+    }
+    pub fn deregister_pipe(&self, pipe_id: usize) {
+      self.0.deregister_pipe(pipe_id)
+    }
+    /// Non-blocking recv (RCVTIMEO = 0).
+    pub async fn try_recv(&self) -> Result<Msg, ZmqError> {
+      self.0.recv(Some(std::time::Duration::ZERO)).await
+    }
+    pub async fn try_recv_multipart(&self) -> Result<FrameBatch, ZmqError> {
+      self.0.recv_multipart(Some(std::time::Duration::ZERO)).await
+    }
+  }
+  impl IngressSenderX {
+    pub fn try_send(&self, batch: FrameBatch) -> bool {
+      self.0.try_send_sync(batch).is_ok()
+    }
+  }
 }
